@@ -91,6 +91,9 @@ impl std::ops::DerefMut for Indices {
 
 impl std::fmt::Display for Indices {
     fn fmt(&self, f: &mut std::fmt::Formatter<'_>) -> std::fmt::Result {
+        if self.is_empty() {
+            return write!(f, "[]");
+        }
         write!(f, "[")?;
         for i in 0..self.len() - 1 {
             write!(f, "{}, ", self[i])?;
@@ -135,6 +138,9 @@ impl std::ops::DerefMut for Paths {
 
 impl std::fmt::Display for Paths {
     fn fmt(&self, f: &mut std::fmt::Formatter<'_>) -> std::fmt::Result {
+        if self.is_empty() {
+            return write!(f, "[]");
+        }
         write!(f, "[")?;
         for i in 0..self.len() - 1 {
             write!(f, "{}, ", self[i])?;
